@@ -657,6 +657,10 @@ def _logpoly(p):
     for pr, k in _prime_factors(coeff.denominator).items():
         out = out - NF.atom(Atom("logq", pr)) * k
     for a, e in factors:
+        if isinstance(a, Atom) and a.kind == "app" and a.args[0] == "det":
+            # log det(A) = log|det(A)| wherever the logarithm is defined (det > 0)
+            out = out + NF.atom(Atom("app", "logabsdet", *a.args[1:])) * e
+            continue
         out = out + NF.atom(Atom("log", a)) * e
     return out
 
